@@ -648,14 +648,23 @@ plan!(c08_obs_over_eviction_after_take, unwind 6, slots 3, Hist::KeepLast(2),
   |s| s.avail_end == 1 && s.evicted == 1,
   "depth 2, two untaken changes received, only one available: more evicted than History requires");
 
-// ================================================================== findings (fail on the unchanged tree)
-// last_generation_accessed moves BACKWARDS when an access returns only an older generation
-plan!(c08_finding_view_state_backwards_read, unwind 6, slots 3, Hist::KeepAll,
-  [a(0, 1, 1, V), a(0, 1, 2, D), a(0, 1, 3, V), rd(Any, ALL), rd(Any, Mx::N(1)), rd(Any, ALL)],
-  |s| s.latest_notnew, "x");
+// ================================================================== findings (FAIL on the unchanged tree, reproduce natively)
+// DataSampleCache::mark_instances_viewed assigns `last_generation_accessed = <newest generation of THIS access>`
+// unconditionally, so an access that returns only OLDER-generation samples of an instance moves the
+// bookkeeping BACKWARDS; the most recent sample (generation already accessed, instance not reborn since) is
+// then reported view_state NEW again.  DDS 1.4 2.2.2.5.1.8: NOT_NEW = "the DataReader has already accessed
+// samples of the same instance and the instance has not been reborn since" (both readings in `MI` agree).
+// The cover is the expected behaviour (reached once the defect is fixed).
+// (1) read everything, take_next_sample, read again — one writer
 plan!(c08_finding_view_state_backwards_take, unwind 6, slots 3, Hist::KeepAll,
   [a(0, 1, 1, V), a(0, 1, 2, D), a(0, 1, 3, V), rd(Any, ALL), tk(Any, Mx::N(1)), rd(Any, ALL)],
-  |s| s.latest_notnew, "x");
+  |s| s.latest_notnew && s.returned == 6, "third access reports the most recent sample NOT_NEW");
+// (2) the same with reads only
+plan!(c08_finding_view_state_backwards_read, unwind 6, slots 3, Hist::KeepAll,
+  [a(0, 1, 1, V), a(0, 1, 2, D), a(0, 1, 3, V), rd(Any, ALL), rd(Any, Mx::N(1)), rd(Any, ALL)],
+  |s| s.latest_notnew && s.returned == 7, "third access reports the most recent sample NOT_NEW");
+// (3) the documented loop `while let Some(s) = reader.read_next_sample()` (= read(1, not_read)) with two
+// writers whose sequence numbers cross: W2's newer-generation sample is read BEFORE W1's older one
 plan!(c08_finding_view_state_backwards_next_sample_loop, unwind 6, slots 3, Hist::KeepAll,
   [a(0, 1, 5, V), a(0, 2, 1, D), a(0, 2, 2, V), rd(NotRead, Mx::N(1)), rd(NotRead, Mx::N(1)), rd(NotRead, Mx::N(1)), rd(Any, ALL)],
-  |s| s.latest_notnew, "x");
+  |s| s.latest_notnew && s.returned == 6, "the final read reports the most recent sample NOT_NEW");
